@@ -318,4 +318,49 @@ example : ((handFn .csiParam).row (.rune 0x6D)).1.any isDispatch = true := by de
 
 end Stale
 
+/-! ### negative witnesses for the parameter pools -/
+
+/-- The variant interpreter with the code's configuration is `pstep` (so the theorems above are
+    about `PCfg.code`). -/
+theorem pstepV_code (s : PSt) (l : PLabel) : pstepV PCfg.code s l = pstep s l := by
+  cases l with
+  | emit =>
+    simp only [pstepV, PCfg.code, Bool.false_eq_true, if_false]
+    cases pstep s .emit with
+    | none => rfl
+    | some s' => cases hw : s.work with
+      | none => rfl
+      | some w => rfl
+  | finish k =>
+    simp only [pstepV, PCfg.code, Bool.false_eq_true, if_false, pstep]
+    cases s.delivered[k]? <;> rfl
+  | _ => rfl
+
+/-- Ownership must move to the consumer at `emit` (the analogue of `…_needs_get` for the
+    intermediates): if `csiDispatch` could take the list and the parameter arrays of a sequence again
+    while that sequence is still held, the held sequence is overwritten — `CSI 1 m` held, the next
+    `csiDispatch` gets the same `[]int` array and appends 9: the held CSI now reads 9. -/
+theorem delivered_params_immutable_needs_transfer :
+    ¬ (∀ (ls : List PLabel) (s : PSt), prunV { keepOnEmit := true } PSt.init ls = some s →
+        ∀ d ∈ s.delivered, readParams s.pheap s.lheap d.l = d.snap) := by
+  intro h
+  have h1 := h [.begin none, .get none, .app 1 0, .push 0, .emit,
+    .begin none, .get (some 0), .app 9 0] _ rfl ⟨⟨0, 1⟩, [[1]]⟩ (by decide)
+  revert h1
+  decide
+
+/-- … and the consumer must hand a CSI back at most once: after two `Finish` calls on `CSI 1 m` its
+    parameter array sits in `paramPool` twice; `CSI 2 m` takes it and is delivered (never finished);
+    `CSI 3 m` takes it again and overwrites what the held `CSI 2 m` reads. -/
+theorem delivered_params_immutable_needs_finish_once :
+    ¬ (∀ (ls : List PLabel) (s : PSt), prunV { finishTwice := true } PSt.init ls = some s →
+        ∀ d ∈ s.delivered, readParams s.pheap s.lheap d.l = d.snap) := by
+  intro h
+  have h1 := h [.begin none, .get none, .app 1 0, .push 0, .emit,
+    .finish 0, .finPut 0, .finPut 0, .finish 0, .finPut 0, .finPut 0,
+    .begin none, .get (some 0), .app 2 0, .push 0, .emit,
+    .begin none, .get (some 0), .app 3 0] _ rfl ⟨⟨1, 1⟩, [[2]]⟩ (by decide)
+  revert h1
+  decide
+
 end VaxisModel.Props.C08Pools
